@@ -165,6 +165,38 @@ pub fn kind_num(k: std::io::ErrorKind) -> u8 {
         TimedOut => 4,
         ConnectionReset => 5,
         Other => 6,
+        NotFound => 7,
+        PermissionDenied => 8,
+        ConnectionRefused => 9,
+        HostUnreachable => 10,
+        NetworkUnreachable => 11,
+        ConnectionAborted => 12,
+        NotConnected => 13,
+        AddrInUse => 14,
+        AddrNotAvailable => 15,
+        NetworkDown => 16,
+        BrokenPipe => 17,
+        AlreadyExists => 18,
+        NotADirectory => 19,
+        IsADirectory => 20,
+        DirectoryNotEmpty => 21,
+        ReadOnlyFilesystem => 22,
+        StaleNetworkFileHandle => 23,
+        InvalidInput => 24,
+        WriteZero => 25,
+        StorageFull => 26,
+        NotSeekable => 27,
+        FileTooLarge => 28,
+        ResourceBusy => 29,
+        ExecutableFileBusy => 30,
+        Deadlock => 31,
+        TooManyLinks => 32,
+        ArgumentListTooLong => 33,
+        Unsupported => 34,
+        OutOfMemory => 35,
+        QuotaExceeded => 36,
+        CrossesDevices => 37,
+        InvalidFilename => 38,
         _ => 99,
     }
 }
@@ -177,6 +209,38 @@ pub fn num_kind(k: u8) -> std::io::ErrorKind {
         3 => WouldBlock,
         4 => TimedOut,
         5 => ConnectionReset,
+        7 => NotFound,
+        8 => PermissionDenied,
+        9 => ConnectionRefused,
+        10 => HostUnreachable,
+        11 => NetworkUnreachable,
+        12 => ConnectionAborted,
+        13 => NotConnected,
+        14 => AddrInUse,
+        15 => AddrNotAvailable,
+        16 => NetworkDown,
+        17 => BrokenPipe,
+        18 => AlreadyExists,
+        19 => NotADirectory,
+        20 => IsADirectory,
+        21 => DirectoryNotEmpty,
+        22 => ReadOnlyFilesystem,
+        23 => StaleNetworkFileHandle,
+        24 => InvalidInput,
+        25 => WriteZero,
+        26 => StorageFull,
+        27 => NotSeekable,
+        28 => FileTooLarge,
+        29 => ResourceBusy,
+        30 => ExecutableFileBusy,
+        31 => Deadlock,
+        32 => TooManyLinks,
+        33 => ArgumentListTooLong,
+        34 => Unsupported,
+        35 => OutOfMemory,
+        36 => QuotaExceeded,
+        37 => CrossesDevices,
+        38 => InvalidFilename,
         _ => Other,
     }
 }
@@ -794,6 +858,62 @@ pub fn sparse_big<const N: usize>(w: &mut impl std::io::Write) -> usize {
     n
 }
 
+
+/// `copy_once_from` with a reader failing with every error kind std::io knows
+pub fn cof_kinds<const N: usize>(w: &mut impl std::io::Write) -> usize {
+    let mut n = 0;
+    for (ri, wi) in [(0usize, 0usize), (0, 3), (2, 5), (1, N)] {
+        let mut a = [0u8; N];
+        for (i, x) in a.iter_mut().enumerate() {
+            *x = b'a' + i as u8;
+        }
+        let mut b = FixedBuf::empty(a);
+        b.wrote(wi);
+        if ri > 0 {
+            b.read_bytes(ri);
+        }
+        if let Some(s) = observe(&b) {
+            for kind in 0u8..=38 {
+                transition(&b, &s, &Op::CopyOnce(Resp::Err(kind)), w);
+                n += 1;
+            }
+        }
+    }
+    n
+}
+
+/// long runs of the same few calls on ONE value (call counters that wrap, amortised work every so many calls)
+pub fn repeat<const N: usize>(w: &mut impl std::io::Write) -> usize {
+    let patterns: Vec<Vec<Op>> = vec![
+        vec![Op::WriteBytes(vec![b'x']), Op::ReadByte],
+        vec![Op::WriteBytes(vec![b'a', b'\n']), Op::Deframe(Df::Line), Op::Shift],
+        vec![Op::IoWrite(vec![b'q', b'r', b's']), Op::IoRead(2), Op::TryParse(vec![ROp::ReadAll], false), Op::ReadBytes(1)],
+        vec![Op::WriteBytes(vec![1, 2]), Op::TryReadBytes(3), Op::ReadAll],
+        vec![Op::CopyOnce(Resp::Data(vec![b'k', 0], false)), Op::Deframe(Df::Null), Op::Shift, Op::Clear],
+    ];
+    let mut n = 0;
+    for pat in patterns {
+        let mut b: FixedBuf<N> = FixedBuf::new();
+        let mut s = match observe(&b) {
+            Some(s) => s,
+            None => continue,
+        };
+        'outer: for _ in 0..300 {
+            for op in &pat {
+                match transition(&b, &s, op, w) {
+                    Some((b2, s2)) => {
+                        b = b2;
+                        s = s2;
+                        n += 1;
+                    }
+                    None => break 'outer,
+                }
+            }
+        }
+    }
+    n
+}
+
 /// long frames: a buffer whose only terminator sits at `pos`; every index shape; the deframing calls and the calls that
 /// interact with them (covers thresholds that only long frames / nearly full buffers reach)
 pub fn grid_df<const N: usize>(pos: usize, term: &[u8], w: &mut impl std::io::Write) -> usize {
@@ -945,6 +1065,117 @@ pub fn vectored<const N: usize>(w: &mut impl std::io::Write) -> usize {
                 match observe(&c) {
                     Some(s2) => writeln!(w, "TV {} {} | rv {} | {} | {}", N, s.render_pre(), ll, out, s2.render_full()).unwrap(),
                     None => writeln!(w, "TV {} {} | rv {} | {} | X", N, s.render_pre(), ll, out).unwrap(),
+                }
+                n += 1;
+            }
+            // write_fmt (pieces = literal parts and formatted arguments in order), write_all, read_exact
+            let txt = |k: usize, off: usize| -> String { (0..k).map(|j| (b'a' + ((off + j) % 26) as u8) as char).collect() };
+            let mut piece_lists: Vec<Vec<String>> = vec![vec![], vec![String::new()]];
+            for &x in &[0usize, 1, free.saturating_sub(1), free, free + 1] {
+                piece_lists.push(vec![txt(x, 0)]);
+                for &y in &[0usize, 1, free.saturating_sub(x).saturating_sub(1), free.saturating_sub(x), free.saturating_sub(x) + 1] {
+                    piece_lists.push(vec![txt(x, 0), txt(y, 3)]);
+                    piece_lists.push(vec![txt(x, 0), txt(1, 7), txt(y, 3)]);
+                }
+            }
+            piece_lists.sort();
+            piece_lists.dedup();
+            for pl in &piece_lists {
+                let mut c = b;
+                let r = catch_unwind(AssertUnwindSafe(|| {
+                    let st = count_on();
+                    let r = match pl.len() {
+                        0 => write!(c, ""),
+                        1 => write!(c, "{}", pl[0]),
+                        2 => write!(c, "{}{}", pl[0], pl[1]),
+                        _ => write!(c, "{}{}{}", pl[0], pl[1], pl[2]),
+                    };
+                    let al = count_off(st);
+                    (r.map_err(|e| kind_num(e.kind())), al)
+                }));
+                let out = match r {
+                    Ok((Ok(()), al)) => format!("ok - {}", al),
+                    Ok((Err(e), _)) => format!("err{} - 0", e),
+                    Err(_) => {
+                        count_off(0);
+                        "panic - 0".to_string()
+                    }
+                };
+                let sl = if pl.is_empty() { "_".to_string() } else { pl.iter().map(|d| hex(d.as_bytes())).collect::<Vec<_>>().join(",") };
+                match observe(&c) {
+                    Some(s2) => writeln!(w, "TV {} {} | wf {} | {} | {}", N, s.render_pre(), sl, out, s2.render_full()).unwrap(),
+                    None => writeln!(w, "TV {} {} | wf {} | {} | X", N, s.render_pre(), sl, out).unwrap(),
+                }
+                n += 1;
+            }
+            // a literal part, an integer argument and a literal part: `write!(buf, "id={}\r\n", 7)`
+            {
+                let mut c = b;
+                let r = catch_unwind(AssertUnwindSafe(|| {
+                    let st = count_on();
+                    let r = write!(c, "id={}\r\n", 7u32 + (ri as u32 % 3));
+                    let al = count_off(st);
+                    (r.map_err(|e| kind_num(e.kind())), al)
+                }));
+                let out = match r {
+                    Ok((Ok(()), al)) => format!("ok - {}", al),
+                    Ok((Err(e), _)) => format!("err{} - 0", e),
+                    Err(_) => {
+                        count_off(0);
+                        "panic - 0".to_string()
+                    }
+                };
+                let num = format!("{}", 7u32 + (ri as u32 % 3));
+                let sl = format!("{},{},{}", hex(b"id="), hex(num.as_bytes()), hex(b"\r\n"));
+                match observe(&c) {
+                    Some(s2) => writeln!(w, "TV {} {} | wf {} | {} | {}", N, s.render_pre(), sl, out, s2.render_full()).unwrap(),
+                    None => writeln!(w, "TV {} {} | wf {} | {} | X", N, s.render_pre(), sl, out).unwrap(),
+                }
+                n += 1;
+            }
+            for &k in &[0usize, 1, free.saturating_sub(1), free, free + 1, free + 9] {
+                let data: Vec<u8> = (0..k).map(|j| b'A' + (j % 26) as u8).collect();
+                let mut c = b;
+                let r = catch_unwind(AssertUnwindSafe(|| {
+                    let st = count_on();
+                    let r = c.write_all(&data);
+                    let al = count_off(st);
+                    (r.map_err(|e| kind_num(e.kind())), al)
+                }));
+                let out = match r {
+                    Ok((Ok(()), al)) => format!("ok - {}", al),
+                    Ok((Err(e), _)) => format!("err{} - 0", e),
+                    Err(_) => {
+                        count_off(0);
+                        "panic - 0".to_string()
+                    }
+                };
+                match observe(&c) {
+                    Some(s2) => writeln!(w, "TV {} {} | wa {} | {} | {}", N, s.render_pre(), hex(&data), out, s2.render_full()).unwrap(),
+                    None => writeln!(w, "TV {} {} | wa {} | {} | X", N, s.render_pre(), hex(&data), out).unwrap(),
+                }
+                n += 1;
+            }
+            for &k in &[0usize, 1, len.saturating_sub(1), len, len + 1, len + 7] {
+                let mut dest = vec![0xEEu8; k];
+                let mut c = b;
+                let r = catch_unwind(AssertUnwindSafe(|| {
+                    let st = count_on();
+                    let r = c.read_exact(&mut dest);
+                    let al = count_off(st);
+                    (r.map_err(|e| kind_num(e.kind())), al)
+                }));
+                let out = match r {
+                    Ok((Ok(()), al)) => format!("ok - {} {}", al, hex(&dest)),
+                    Ok((Err(e), _)) => format!("err{} - 0 {}", e, hex(&dest)),
+                    Err(_) => {
+                        count_off(0);
+                        format!("panic - 0 {}", hex(&dest))
+                    }
+                };
+                match observe(&c) {
+                    Some(s2) => writeln!(w, "TV {} {} | re {} | {} | {}", N, s.render_pre(), k, out, s2.render_full()).unwrap(),
+                    None => writeln!(w, "TV {} {} | re {} | {} | X", N, s.render_pre(), k, out).unwrap(),
                 }
                 n += 1;
             }
